@@ -13,6 +13,7 @@ import (
 	"math/rand"
 	"os"
 	"path/filepath"
+	"regexp"
 	"sort"
 	"sync"
 	"time"
@@ -223,10 +224,13 @@ func (c *Ctx) Violation(signature, what string, witness any) {
 
 // Inconclusive records a case whose verdict could not be decided.
 func (c *Ctx) Inconclusive(reason string) {
+	reason = addrRe.ReplaceAllString(reason, "<addr>") // (one evidence entry per kind of reason, not per port)
 	c.mu.Lock()
 	c.res.Inconclusive[reason]++
 	c.mu.Unlock()
 }
+
+var addrRe = regexp.MustCompile(`\d+\.\d+\.\d+\.\d+:\d+`)
 
 // Obs adds delta to a named counter that is reported in the evidence.
 func (c *Ctx) Obs(key string, delta int64) {
